@@ -120,7 +120,10 @@ def initial_state(tag="H0"):
     k = z3.Const("k!hw", Val)
     for comp, idx in (("idict", i), ("lelem", i), ("dval", k), ("dkey", k)):
         t = z3.Select(z3.Select(st.heap[comp], a), idx)
-        st.assume(z3.ForAll([a, idx], z3.Implies(is_ref(t), z3.And(a_of(t) >= 0, a_of(t) < st.alloc)), patterns=[t]))
+        # (only for allocated objects: what lies above the allocation pointer is arbitrary - that is where the loop
+        # rule leaves the objects allocated by earlier iterations)
+        st.assume(z3.ForAll([a, idx], z3.Implies(z3.And(a < st.alloc, is_ref(t)), z3.And(a_of(t) >= 0, a_of(t) < st.alloc)),
+                            patterns=[t]))
     for comp in ("llen", "dsize"):
         t = z3.Select(st.heap[comp], a)
         st.assume(z3.ForAll([a], t >= 0, patterns=[t]))
